@@ -70,6 +70,14 @@ REQUIRED_COUNTERS = [
     'explicit_checkers_empty_dict', 'explicit_checkers_empty_defaultdict', 'explicit_checkers_single_key',
     'explicit_checkers_mapping', 'explicit_checkers_defaultdict_keys', 'explicit_checkers:rank', 'explicit_checkers:sum',
     'explicit_differs_from_default',
+    'op:eliminate_seq', 'seq_first_profile_clean', 'seq_rejected_ballot_absent_later', 'seq_rejected_ballot_again',
+    'seq_rejected_ballot_valid_later', 'seq_clean_profile_after_removal', 'seq_validator_state_changed',
+    'shared_validator_object', 'shared_eliminator_object',
+    'multi_duplicated:ranked', 'multi_duplicated:enum', 'multi_duplicated:range', 'multi_duplicated_objects',
+    'multi_duplicated_str_and_object', 'multi_duplicated_object_kinds', 'multi_not_admitted:approval', 'multi_not_admitted:ranked',
+    'multi_not_admitted:enum', 'multi_not_admitted:range', 'multi_not_admitted_objects', 'multi_ranks_out_of_bounds',
+    'multi_bad_scores', 'multi_bad_scores_nonnumeric', 'multi_malformed_score_items',
+    'elim:multi_duplicated:ranked', 'elim:multi_duplicated_objects', 'elim:multi_not_admitted_objects', 'elim_multi_defect',
     'op:validate_seq', 'seq_valid_after_invalid', 'other_validator_first', 'elim_mixed_kinds',
     'ballot_len_0', 'ballot_len_1', 'ballot_len_50plus',
 ]
@@ -80,7 +88,7 @@ RULE = ('ballots from the grammar (str, Person with/without party, PoliticalPart
         'Range x bounds None/one-sided/equal/crossing x per-rank and per-count bound dictionaries x Basic/Person/Party nominators '
         'with every flag combination, built through bound tuples / dictionaries and (20%) through explicit checker objects; op '
         'eliminate on dictionaries of 1-7 hashable ballots. Thorough tier adds the exhaustive scope: every object of depth <= 2 '
-        'over six atoms (two strings, a Person, a blank vote, 1, None) with containers of at most two members x 72 configurations. '
+        'over six atoms (two strings, a Person, a blank vote, 1, None) with containers of at most two members x 64 configurations. '
         'Audit dimensions (harness/GENERATOR_CHECKLIST.md): bounds handed over as int / Fraction / Decimal / float (dyadic and 1.4-like) / '
         'bool, zero, negative, crossing; bound dictionaries with key 0 and keys beyond the ballot; all ten nominator flag combinations, '
         'flags set after construction, the default nominator; candidate objects with an empty name, one-member / nested / empty coalitions, '
@@ -432,14 +440,68 @@ def uses_plain_dicts(val):
 _LAST = [None, None]
 
 
+# Long-lived validator + eliminator objects, one pair per configuration, used by the cases flagged `_shared` (about half of the
+# calls of the recurring configurations): state that a validator, a checker store or the eliminator keeps between calls then
+# shows up as an outcome that depends on earlier, unrelated ballots.  The model is a pure function of the case.
+_SHARED = {}
+
+
+def sharable(val):
+    """configurations whose validator holds no per-case candidate objects"""
+    return not any(x is not None and ('c' in x or 'o' in x) for lv in val.get('levels', []) for x, _ in walk(lv))
+
+
+def get_objects(case, pool):
+    """(validator, eliminator) of a case: the long-lived pair of its configuration, or a fresh pair"""
+    import votelib.convert
+    val = case['val']
+    if case.get('_shared') and sharable(val):
+        k = json.dumps(val, sort_keys=True)
+        if k not in _SHARED:
+            v = mk_validator(val, pool)
+            _SHARED[k] = (v, votelib.convert.InvalidVoteEliminator(v))
+        return _SHARED[k]
+    v = mk_validator(val, pool)
+    return v, votelib.convert.InvalidVoteEliminator(v)
+
+
+def set_flags(nominator, n):
+    """change the flags of a live nominator (validator state changed between two calls)"""
+    if n['k'] == 'basic':
+        nominator.allow_blank = n['blank']
+    elif n['k'] == 'person':
+        nominator.allow_independents, nominator.allow_blank = n['indep'], n['blank']
+    else:
+        nominator.allow_coalitions, nominator.allow_blank = n['coal'], n['blank']
+
+
+def step_vals(val, steps):
+    """the configuration in force at each call of a sequence: flags set on the live nominator stay until they are set again
+    (a step whose flags are for another nominator kind sets nothing)"""
+    out, cur = [], val
+    for st in steps:
+        if 'nom' in st and st['nom']['k'] == val['nom']['k']:
+            cur = dict(val, nom=st['nom'])
+        out.append(cur)
+    return out
+
+
 def _built(case):
-    """(pool, validator, vote object or votes dict) of a case; cached so that impl and model_line see the same objects"""
+    """(pool, validator, vote object or votes dict, eliminator) of a case; cached so that impl and model_line see the same
+    objects"""
     key = case_key(case)
     if _LAST[0] == key:
         return _LAST[1]
     pool = Pool()
-    validator = mk_validator(case['val'], pool) if case['op'] != 'shape' else None
-    if case['op'] in ('validate', 'shape'):
+    validator, elim = get_objects(case, pool) if case['op'] != 'shape' else (None, None)
+    if case['op'] == 'eliminate_seq':
+        obj = []
+        for st in case['steps']:
+            d = {}
+            for k, n in st['votes']:
+                d[pool.build(k)] = py_num(n)
+            obj.append(d)
+    elif case['op'] in ('validate', 'shape'):
         obj = pool.build(case['vote'])
     elif case['op'] == 'validate_seq':
         obj = [pool.build(v) for v in case['votes']]
@@ -455,13 +517,13 @@ def _built(case):
         obj = {}
         for k, n in case['votes']:
             obj[pool.build(k)] = py_num(n)
-    _LAST[0], _LAST[1] = key, (pool, validator, obj)
+    _LAST[0], _LAST[1] = key, (pool, validator, obj, elim)
     return _LAST[1]
 
 
 def impl(case):
     import votelib.convert
-    pool, validator, obj = _built(case)
+    pool, validator, obj, elim = _built(case)
     if case['op'] == 'validate':
         def run():
             validator.validate(obj)
@@ -485,18 +547,36 @@ def impl(case):
         return guarded(run)
     if case['op'] == 'eliminate':
         def run():
-            out = votelib.convert.InvalidVoteEliminator(validator).convert(obj)
+            out = elim.convert(obj)
             return [[pool.encode(k), num_str(v)] for k, v in out.items()]
         return guarded(run)
+    if case['op'] == 'eliminate_seq':
+        # ONE eliminator object (wrapping one validator object) filters the profiles one after the other
+        outs = []
+        for st, d in zip(case['steps'], obj):
+            if 'nom' in st and st['nom']['k'] == case['val']['nom']['k']:
+                set_flags(validator.nominator, st['nom'])
+            before = dict(d)
+
+            def run():
+                out = elim.convert(d)
+                return [[pool.encode(k), num_str(v)] for k, v in out.items()]
+            r = guarded(run)
+            if d != before:
+                r = {'err': 'InputMutated'}
+            outs.append(r)
+        if any('nom' in st for st in case['steps']):
+            set_flags(validator.nominator, case['val']['nom'])      # leave a long-lived validator as configured
+        return outs
     raise ValueError(case['op'])
 
 
 def model_line(case):
     if case['op'] == 'shape':
-        pool, validator, obj = _built(case)
+        pool, validator, obj, elim = _built(case)
         return {'op': 'shape', 'vote': pool.encode(obj)}
     # explicit plain-dict checkers are wrapped into a defaultdict by the constructors (84faad8): same model
-    pool, validator, obj = _built(case)
+    pool, validator, obj, elim = _built(case)
     val = plain_val(case['val'])
     if val['vt'] == 'ranked' and val.get('rank') is None:
         val['rank'] = {'all': ['1', '1']}          # the constructor's default
@@ -506,10 +586,24 @@ def model_line(case):
         return {'op': 'validate', 'val': val, 'vote': pool.encode(obj)}
     if case['op'] == 'validate_seq':
         return {'op': 'validate_seq', 'val': val, 'votes': [pool.encode(b) for b in obj]}
+    if case['op'] == 'eliminate_seq':
+        steps = []
+        for sv0, d in zip(step_vals(case['val'], case['steps']), obj):
+            sv = dict(val, nom=sv0['nom'])
+            steps.append({'val': sv, 'votes': [[pool.encode(k), num_str(v)] for k, v in d.items()]})
+        return {'op': 'eliminate_seq', 'steps': steps}
     return {'op': 'eliminate', 'val': val, 'votes': [[pool.encode(k), num_str(v)] for k, v in obj.items()]}
 
 
 def compare(case, iobs, mobs):
+    if case['op'] == 'eliminate_seq' and isinstance(iobs, list) and isinstance(mobs, list) and len(iobs) == len(mobs):
+        for i, (a, b) in enumerate(zip(iobs, mobs)):
+            if isinstance(a, list) and isinstance(b, list):
+                if [[ckey(k), v] for k, v in a] != [[ckey(k), v] for k, v in b]:
+                    return f'step {i}: impl={json.dumps(a)} model={json.dumps(b)}'
+            elif a != b:
+                return f'step {i}: impl={json.dumps(a)} model={json.dumps(b)}'
+        return None
     if case['op'] == 'eliminate' and isinstance(iobs, list) and isinstance(mobs, list):
         a = [[ckey(k), v] for k, v in iobs]
         b = [[ckey(k), v] for k, v in mobs]
@@ -697,34 +791,43 @@ def oracle(case, obs):
         for i, (v, ob) in enumerate(zip(case['votes'], obs)):
             one(v, ob, f' #{i} of the sequence')
         return out
-    if case['op'] == 'eliminate':
-        expected, counts = {}, {}
-        for k, n in case['votes']:
+    def elim(v, votes, ob, where=''):
+        counts = {}
+        for k, n in votes:
             counts[ckey(k)] = num_str(bfrac(n))          # later duplicates overwrite (dict semantics)
-        verdicts = {ckey(k): rule(val, k) for k, n in case['votes']}
+        verdicts = {ckey(k): rule(v, k) for k, n in votes}
         expected = {k: n for k, n in counts.items() if not verdicts[k]}
-        if isinstance(obs, dict):
-            out.append((f"eliminator_raises:{obs.get('err')}", 'the filter raised instead of removing the rejected ballots'))
-            return out
-        got = {ckey(k): n for k, n in obs}
-        if len(got) != len(obs):
-            out.append(('eliminator_duplicate_key', 'a ballot occurs twice in the output'))
+        if isinstance(ob, dict):
+            out.append((f"eliminator_raises:{ob.get('err')}", f'the filter raised{where} instead of removing the rejected ballots'))
+            return
+        got = {ckey(k): n for k, n in ob}
+        if len(got) != len(ob):
+            out.append(('eliminator_duplicate_key', f'a ballot occurs twice in the output{where}'))
         for k in got:
             if k not in counts:
-                out.append(('eliminator_invented', 'a ballot of the output is not in the input'))
+                out.append(('eliminator_invented', f'a ballot of the output is not in the input{where}'))
             elif k not in expected:
-                out.append(('eliminator_kept_invalid:' + '+'.join(verdicts[k]), f'kept {k}'))
+                out.append(('eliminator_kept_invalid:' + '+'.join(verdicts[k]), f'kept {k}{where}'))
             elif got[k] != expected[k]:
-                out.append(('eliminator_count_changed', f'{k}: {expected[k]} -> {got[k]}'))
+                out.append(('eliminator_count_changed', f'{k}: {expected[k]} -> {got[k]}{where}'))
         for k in expected:
             if k not in got:
-                out.append(('eliminator_removed_valid', f'removed {k}'))
+                out.append(('eliminator_removed_valid', f'removed {k}{where}'))
+
+    if case['op'] == 'eliminate':
+        elim(val, case['votes'], obs)
+        return out
+    if case['op'] == 'eliminate_seq':
+        if not isinstance(obs, list) or len(obs) != len(case['steps']):
+            return [('sequence_shape', str(obs))]
+        for i, (st, sv, ob) in enumerate(zip(case['steps'], step_vals(val, case['steps']), obs)):
+            elim(sv, st['votes'], ob, f' at call #{i} of the same eliminator')
         return out
     raise ValueError(case['op'])
 
 
 def nontrivial(case, obs):
-    if case['op'] in ('eliminate', 'validate_seq'):
+    if case['op'] in ('eliminate', 'validate_seq', 'eliminate_seq'):
         return True
     if case['op'] == 'shape':
         return False
@@ -1396,6 +1499,29 @@ def directed(rng):
                                               'via': 'plain_dicts'},
                 'votes': [{'f': [{'t': [S(0), N(2)]}]}, {'f': [{'t': [S(0), N(2)]}, {'t': [S(1), N(5)]}]}, {'f': [{'t': [S(0), S(6)]}]},
                           {'f': [{'t': [S(0), N(3)]}]}, {'f': [{'t': [S(0), N(2)]}]}], '_tags': []})
+    # several distinct candidates named twice, as objects / across shared ranks / strings mixed with an object
+    pn = {'k': 'person', 'indep': True, 'blank': True}
+    p0, p1, p2, p3 = (Cd('person_party', i) for i in (0, 1, 2, 4))
+    party = Cd('party', 0)
+    m1 = ({'vt': 'ranked', 'total': [None, None], 'rank': None, 'nom': pn}, {'t': [p0, p1, p2, p1, p0]})
+    m2 = ({'vt': 'ranked', 'total': [None, None], 'rank': {'all': ['1', '3']}, 'nom': pn}, {'t': [{'f': [p0, p1, p2]}, p3, {'f': [p1, p0]}]})
+    m3 = ({'vt': 'ranked', 'total': [None, None], 'rank': None, 'nom': basic}, {'t': [S(0), party, S(1), party, S(0)]})
+    for v_, b_ in (m1, m2, m3):
+        out.append(mk_case(v_, b_, ['multi_defect']))
+        goodb = {'t': [x for x in b_['t'][:3]]}
+        out.append({'op': 'eliminate', 'val': v_, 'votes': [[goodb, '7'], [b_, '3'], [{'t': goodb['t'][:2]}, '2']],
+                    '_tags': ['op:eliminate', 'elim_multi_defect', 'multi_defect']})
+    # one eliminator object, four profiles in a row (clean, with rejected ballots, rejected ballots absent, present again)
+    av = {'vt': 'approval', 'count': ['1', '2'], 'nom': basic}
+    A, AB, ABC, E = {'f': [S(0)]}, {'f': [S(0), S(1)]}, {'f': [S(0), S(1), S(2)]}, {'f': []}
+    out.append({'op': 'eliminate_seq', 'val': av,
+                'steps': [{'votes': [[A, '3'], [AB, '2']]}, {'votes': [[A, '1'], [ABC, '4'], [E, '2']]}, {'votes': [[AB, '5'], [A, '1']]},
+                          {'votes': [[ABC, '1'], [AB, '7']]}], '_tags': []})
+    pv = {'vt': 'simple', 'nom': {'k': 'basic', 'blank': False}}
+    out.append({'op': 'eliminate_seq', 'val': pv,
+                'steps': [{'votes': [[S(0), '3']]}, {'votes': [[Cd('blank', 0), '2'], [S(0), '1']]},
+                          {'votes': [[Cd('blank', 0), '4'], [S(1), '1']], 'nom': {'k': 'basic', 'blank': True}},
+                          {'votes': [[S(1), '1']], 'nom': {'k': 'basic', 'blank': False}}], '_tags': []})
     # the filter on a dictionary mixing every kind of ballot, with counts of every type
     out.append({'op': 'eliminate', 'val': {'vt': 'approval', 'count': ['1', '2'], 'nom': basic},
                 'votes': [[S(0), '1'], [{'f': [S(0)]}, 'D:5/2'], [{'t': [S(0), S(1)]}, '0'], [{'f': [{'t': [S(0), N(1)]}]}, str(10 ** 400)],
@@ -1499,6 +1625,238 @@ def gen_seq(rng):
         case['first'] = other
         case['_tags'].append('other_validator_first')
     return case
+
+
+def other_flags(rng, nom):
+    """the same nominator kind with other flags"""
+    opts = [n for n in NOMS if n['k'] == nom['k'] and not same_nom(n, nom)]
+    return dict(rng.choice(opts))
+
+
+def gen_elim_seq(rng):
+    """ONE InvalidVoteEliminator (around one validator object) called on several profiles in a row: a clean profile first, then one
+    with rejected ballots, then profiles in which an earlier rejected ballot is absent / present again, optionally with the
+    nominator flags of the live validator changed in between (so that a ballot rejected earlier is valid later)"""
+    vt = rng.choice(['simple', 'approval', 'approval', 'ranked', 'ranked', 'enum', 'range'])
+    val, _ = _gen_vt(rng, [], vt, True)
+    val['nom'] = {k: v for k, v in val['nom'].items() if k not in ('default', 'flip')}
+    if rng.random() < 0.7:
+        val = _loosen(rng, val)
+    ballots = []
+    for _ in range(12):
+        _, v = _gen_vt(rng, [], vt, True, val['nom'])
+        if vt == 'enum' and v is not None and 'f' in v and val['levels']:
+            v = {'f': [{'t': [it['t'][0], rng.choice(val['levels'])]} if (it is not None and 't' in it and len(it['t']) == 2 and rng.random() < 0.8)
+                       else it for it in v['f']]}
+        if hashable_enc(v) and ckey(v) not in [ckey(b) for b in ballots]:
+            ballots.append(v)
+    good = [b for b in ballots if not rule(val, b)]
+    bad = [b for b in ballots if rule(val, b)]
+    if not bad:
+        bad = [N(1), None]
+    if not good:
+        good = ballots[:1] or [S(0)]
+
+    def prof(bs):
+        bs = list(bs)
+        rng.shuffle(bs)
+        return {'votes': [[b, rng.choice(COUNTS)] for b in bs]}
+    steps = []
+    if rng.random() < 0.7:
+        steps.append(prof(rng.sample(good, min(len(good), rng.randint(1, 3)))))                       # nothing to remove
+    steps.append(prof(rng.sample(good, min(len(good), rng.randint(0, 2))) + rng.sample(bad, min(len(bad), rng.randint(1, 2)))))
+    for _ in range(rng.randint(1, 3)):
+        r = rng.random()
+        if r < 0.4:
+            steps.append(prof(rng.sample(good, min(len(good), rng.randint(1, 3)))))                   # the rejected ballots are absent
+        elif r < 0.7:
+            steps.append(prof(rng.sample(good, min(len(good), rng.randint(0, 2))) + rng.sample(bad, 1)))   # a rejected ballot again
+        else:
+            steps.append(prof(rng.sample(ballots, min(len(ballots), rng.randint(1, 4))) if ballots else good))
+    if rng.random() < 0.4 and len(steps) >= 2:
+        # the live validator's nominator gets other flags before one of the later calls
+        i = rng.randrange(1, len(steps))
+        steps[i]['nom'] = other_flags(rng, val['nom'])
+        if i + 1 < len(steps) and rng.random() < 0.5:
+            steps[i + 1]['nom'] = dict(val['nom'])
+    return {'op': 'eliminate_seq', 'val': val, 'steps': steps, '_tags': []}
+
+
+# a small fixed set of configurations whose validator / eliminator objects live for the whole run (`_shared`)
+def shared_vals():
+    basic = {'k': 'basic', 'blank': True}
+    return [
+        {'vt': 'simple', 'nom': {'k': 'person', 'indep': False, 'blank': True}},
+        {'vt': 'approval', 'count': ['1', '2'], 'nom': basic},
+        {'vt': 'approval', 'count': [None, '3'], 'nom': {'k': 'party', 'coal': False, 'blank': False}},
+        {'vt': 'ranked', 'total': ['1', '4'], 'rank': None, 'nom': basic},
+        {'vt': 'ranked', 'total': [None, None], 'rank': {'by': [[1, ['1', '2']], [3, [None, '1']]]}, 'nom': basic},
+        {'vt': 'ranked', 'total': [None, None], 'rank': {'by': [], 'default': [None, '2'], 'form': 'defaultdict'}, 'nom': basic},
+        {'vt': 'enum', 'n': ['1', '3'], 'sum': {'by': [[2, [None, '4']]]}, 'nom': basic, 'levels': [N(0), N(1), N(2), N(3)]},
+        {'vt': 'enum', 'n': [None, None], 'sum': {'all': [None, None]}, 'nom': basic, 'levels': [S(8), S(9)]},
+        {'vt': 'range', 'n': [None, '3'], 'sum': {'all': ['0', '6']}, 'range': ['0', '5'], 'nom': basic},
+        {'vt': 'range', 'n': [None, None], 'sum': {'by': [[1, ['2', '2']]], 'form': 'plain'}, 'range': [None, None], 'nom': basic},
+    ]
+
+
+def gen_shared(rng):
+    """a ballot or a profile for one of the long-lived configurations; half of these calls go through the long-lived objects"""
+    val = rng.choice(shared_vals())
+    vt = val['vt']
+    shared = rng.random() < 0.5
+    if rng.random() < 0.5:
+        _, vote = _gen_vt(rng, [], vt, False, val['nom'])
+        c = mk_case(val, vote, [])
+    else:
+        votes = []
+        for _ in range(rng.randint(1, 5)):
+            _, v = _gen_vt(rng, [], vt, True, val['nom'])
+            if hashable_enc(v):
+                votes.append([v, rng.choice(COUNTS)])
+        c = {'op': 'eliminate', 'val': val, 'votes': votes or [[S(0), '1']], '_tags': ['op:eliminate']}
+    if shared:
+        c['_shared'] = True
+    return c
+
+
+def multi_tags(val, e):
+    """ballots that are invalid for SEVERAL reasons of the same kind at once (the rejection path then has to describe more than
+    one offender: error-message construction is part of it)"""
+    tags = set()
+    vt, nom = val['vt'], val['nom']
+    named = []
+    if vt == 'approval' and e is not None and 'f' in e:
+        named = members(e['f'])
+    elif vt == 'ranked' and e is not None and 't' in e:
+        over = 0
+        rank_bm = val.get('rank') or {'all': ['1', '1']}
+        for i, r in enumerate(e['t']):
+            here = members(r['f']) if (r is not None and 'f' in r) else [r]
+            named += here
+            if not within(bm_get(rank_bm, i + 1), len(here)):
+                over += 1
+        if over >= 2:
+            tags.add('multi_ranks_out_of_bounds')
+    elif vt in ('enum', 'range') and e is not None and 'f' in e:
+        items = members(e['f'])
+        pairs = [it['t'] for it in items if it is not None and 't' in it and len(it['t']) == 2]
+        if len(items) - len(pairs) >= 2:
+            tags.add('multi_malformed_score_items')
+        named = [p[0] for p in pairs]
+        scores = [p[1] for p in pairs]
+        if vt == 'enum':
+            lv = set(ckey(x) for x in val['levels'])
+            badsc = [x for x in scores if ckey(x) not in lv]
+        else:
+            badsc = [x for x in scores if active(val['range']) and not (is_num(x) and within(val['range'], Fraction(x['n'])))]
+        if len(badsc) >= 2:
+            tags.add('multi_bad_scores')
+            if any(not is_num(x) for x in badsc):
+                tags.add('multi_bad_scores_nonnumeric')
+    cnt = {}
+    for c in named:
+        cnt.setdefault(ckey(c), [0, c])[0] += 1
+    dups = [c for n, c in cnt.values() if n > 1]
+    if len(dups) >= 2:
+        tags.add('multi_duplicated:' + vt)
+        if all(is_cand_obj(c) for c in dups):
+            tags.add('multi_duplicated_objects')
+        if any(is_cand_obj(c) for c in dups) and any(is_str(c) for c in dups):
+            tags.add('multi_duplicated_str_and_object')
+        if len(set(c['c'] for c in dups if is_cand_obj(c))) >= 2:
+            tags.add('multi_duplicated_object_kinds')
+    bad = [c for n, c in cnt.values() if not admits(nom, c)]
+    if len(bad) >= 2:
+        tags.add('multi_not_admitted:' + vt)
+        if sum(1 for c in bad if is_cand_obj(c)) >= 2:
+            tags.add('multi_not_admitted_objects')
+    return tags
+
+
+def gen_multi(rng, eliminate=False):
+    """a ballot with two or three simultaneous defects of one kind, mostly on candidate OBJECTS (Person, PoliticalParty, Coalition,
+    blank votes) and on mixtures of objects and strings"""
+    vt = rng.choice(['ranked', 'ranked', 'ranked', 'approval', 'enum', 'range'])
+    nom = dict(rng.choice(NOMS))
+    good = [c for c in admitted(nom) if rng.random() < 0.8 or is_cand_obj(c)]
+    objs = [c for c in good if is_cand_obj(c)]
+    strs = [c for c in good if is_str(c)]
+    rng.shuffle(objs)
+    rng.shuffle(strs)
+    mix = rng.choice(['objects', 'objects', 'mixed', 'strings'])
+    pool = (objs if mix == 'objects' else objs[:3] + strs[:3] if mix == 'mixed' else strs) or good
+    pool = pool[:7]
+    if len(pool) < 3:
+        pool = (pool + good)[:5]
+    rng.shuffle(pool)
+    k = rng.choice([2, 2, 3])
+    kind = rng.choice(['dup', 'dup', 'dup', 'not_admitted', 'bounds', 'scores', 'shape'])
+    tags = ['multi_defect']
+    bads = not_admitted(nom)
+    badobjs = [c for c in bads if is_cand_obj(c)] or bads
+    if vt == 'approval':
+        xs = list(pool)
+        if kind in ('not_admitted', 'dup', 'shape'):
+            xs += rng.sample(badobjs, min(k, len(badobjs)))
+        val = {'vt': vt, 'count': [None, None] if kind != 'bounds' else [str(len(xs) + 1), str(len(xs) + 2)], 'nom': nom}
+        vote = {'f': xs}
+    elif vt == 'ranked':
+        ranks = list(pool)
+        rank = {'all': ['1', '3']}
+        if kind == 'dup':
+            twice = rng.sample(pool, min(k, len(pool)))
+            style = rng.choice(['bare', 'bare', 'shared', 'reversed'])
+            if style == 'bare':
+                for c in twice:
+                    ranks.insert(rng.randint(0, len(ranks)), c)
+            elif style == 'reversed':
+                ranks = ranks + list(reversed(twice))
+            else:
+                ranks = [{'f': pool[:3]}] + pool[3:] + [{'f': twice}]      # duplicated across shared ranks
+        elif kind == 'not_admitted':
+            for c in rng.sample(badobjs, min(k, len(badobjs))):
+                if rng.random() < 0.5:
+                    ranks.insert(rng.randint(0, len(ranks)), c)
+                else:
+                    ranks.append({'f': [c]})
+        elif kind == 'bounds':
+            rank = {'all': ['1', '1']}
+            ranks = [{'f': pool[:2]}, {'f': pool[2:4]}] + pool[4:] if len(pool) >= 4 else [{'f': pool[:2]}, {'f': []}]
+        elif kind == 'shape':
+            ranks = ranks[:2] + [{'l': [pool[0]]}, {'m': [pool[1]]}, {'t': [pool[2]]}][:k] + ranks[2:]
+        else:
+            ranks = ranks + [pool[0], N(1), pool[1], None]                   # duplicates and non-candidates together
+        val = {'vt': vt, 'total': [None, None], 'rank': rank, 'nom': nom}
+        vote = {'t': ranks}
+    else:
+        levels = [N(0), N(1), N(2)]
+        items = [{'t': [c, rng.choice(levels)]} for c in pool]
+        if kind == 'dup':
+            for c in rng.sample(pool, min(k, len(pool))):
+                items.append({'t': [c, N(7) if vt == 'range' else S(10)]})
+        elif kind == 'not_admitted':
+            items += [{'t': [c, N(1)]} for c in rng.sample(badobjs, min(k, len(badobjs)))]
+        elif kind == 'scores':
+            for i in rng.sample(range(len(items)), min(k, len(items))):
+                items[i] = {'t': [items[i]['t'][0], rng.choice([N(9), N(-5), S(10), None, pool[0]])]}
+        elif kind == 'shape':
+            items += [pool[0], {'t': [pool[1]]}, {'t': [pool[2], N(1), N(1)]}][:k]
+        val = {'vt': vt, 'n': [None, None] if kind != 'bounds' else [None, str(len(items) - 2)],
+               'sum': {'all': [None, None] if kind != 'bounds' else [str(10 ** 3), None]}, 'nom': nom}
+        if vt == 'enum':
+            val['levels'] = levels
+        else:
+            val['range'] = ['0', '2']
+        vote = {'f': items}
+    if not eliminate:
+        return mk_case(val, vote, tags)
+    # {good: 7, bad: 3, a shorter good one: 2} through the filter
+    goodvote = {'f': pool[:2]} if vt == 'approval' else {'t': pool[:3]} if vt == 'ranked' else {'f': [{'t': [c, N(1)]} for c in pool[:2]]}
+    shorter = {'f': pool[:1]} if vt == 'approval' else {'t': pool[:2]} if vt == 'ranked' else {'f': [{'t': [pool[0], N(1)]}]}
+    votes = [[goodvote, '7'], [vote, '3'], [shorter, '2']]
+    votes = [[v, n] for v, n in votes if hashable_enc(v)]
+    rng.shuffle(votes)
+    return {'op': 'eliminate', 'val': val, 'votes': votes, '_tags': ['op:eliminate', 'elim_multi_defect'] + tags}
 
 
 def gen_long(rng):
@@ -1635,15 +1993,23 @@ def gen_exact_sum(rng, eliminate=False):
 def _gen(rng, tier):
     for c in directed(rng):
         yield c
-    for _ in range(500 if tier == 'quick' else 12000):
+    for _ in range(500 if tier == 'quick' else 8000):
         yield gen_exact_sum(rng)
     for _ in range(150 if tier == 'quick' else 3000):
         yield gen_exact_sum(rng, eliminate=True)
-    for _ in range(700 if tier == 'quick' else 10000):
+    for _ in range(700 if tier == 'quick' else 6000):
         yield gen_seq(rng)
+    for _ in range(700 if tier == 'quick' else 8000):
+        yield gen_elim_seq(rng)
+    for _ in range(1500 if tier == 'quick' else 10000):
+        yield gen_shared(rng)
+    for _ in range(900 if tier == 'quick' else 8000):
+        yield gen_multi(rng)
+    for _ in range(300 if tier == 'quick' else 4000):
+        yield gen_multi(rng, eliminate=True)
     for _ in range(120 if tier == 'quick' else 1500):
         yield gen_long(rng)
-    n_main = 9000 if tier == 'quick' else 60000
+    n_main = 9000 if tier == 'quick' else 40000
     for _ in range(n_main):
         tags = []
         val, vote = gen_any(rng, tags)
@@ -1653,7 +2019,7 @@ def _gen(rng, tier):
         if rng.random() < 0.3:
             val = retype_bounds(rng, val)
         yield mk_case(val, vote, tags)
-    for _ in range(2500 if tier == 'quick' else 15000):
+    for _ in range(2500 if tier == 'quick' else 10000):
         vt = rng.choice(['simple', 'approval', 'ranked', 'enum', 'range'])
         yield mk_case(random_val(rng, vt), gen_obj(rng), ['malformed_stream'])
     for _ in range(1500 if tier == 'quick' else 10000):
@@ -1695,7 +2061,7 @@ def _ex_vals():
     for nom in (basic, person):
         for b in ([None, None], ['1', '1'], ['2', None], [None, '1'], ['2', '1']):
             vals.append({'vt': 'approval', 'count': b, 'nom': nom})
-        for total in ([None, None], ['2', '2'], [None, '1']):
+        for total in ([None, None], ['2', '2']):
             for rank in (None, {'all': ['1', '2']}, {'by': [[1, ['2', '2']]]}, {'by': [[2, ['1', '1']]]}):
                 vals.append({'vt': 'ranked', 'total': total, 'rank': rank, 'nom': nom})
         for nb in ([None, None], ['2', '2']):
@@ -1921,6 +2287,8 @@ def generate(rng, tier):
             continue
         tags += sorted(config_tags(val))
         if c['op'] == 'validate':
+            if c.get('_shared'):
+                tags.append('shared_validator_object')
             why = rule(val, c['vote'])
             tags.append('valid' if not why else 'invalid')
             for w in why:
@@ -1928,6 +2296,7 @@ def generate(rng, tier):
             tags += sorted(structure_tags(val['vt'], c['vote']))
             if val['vt'] in ('ranked', 'enum', 'range') and differs_from_default(val, c['vote']):
                 tags.append('explicit_differs_from_default')
+            tags += sorted(multi_tags(val, c['vote']))
             bm = val.get('rank') if val['vt'] == 'ranked' else val.get('sum')
             e = c['vote']
             if bm is not None and 'by' in bm and e is not None and ('t' in e or 'f' in e):
@@ -1941,9 +2310,29 @@ def generate(rng, tier):
                 tags.append('seq_valid_after_invalid')
             for v in c['votes']:
                 tags += sorted(structure_tags(val['vt'], v))
+        elif c['op'] == 'eliminate_seq':
+            tags.append('op:eliminate_seq')
+            rejected = set()          # ballots rejected at an earlier call
+            for i, (st, sv) in enumerate(zip(c['steps'], step_vals(val, c['steps']))):
+                if 'nom' in st:
+                    tags.append('seq_validator_state_changed')
+                here = {ckey(k): bool(rule(sv, k)) for k, _ in st['votes']}
+                if i == 0 and not any(here.values()):
+                    tags.append('seq_first_profile_clean')
+                if rejected and not (rejected & set(here)):
+                    tags.append('seq_rejected_ballot_absent_later')
+                if any(k in rejected and bad for k, bad in here.items()):
+                    tags.append('seq_rejected_ballot_again')
+                if any(k in rejected and not bad for k, bad in here.items()):
+                    tags.append('seq_rejected_ballot_valid_later')
+                if rejected and not any(here.values()):
+                    tags.append('seq_clean_profile_after_removal')
+                rejected |= {k for k, bad in here.items() if bad}
         else:
             if 'op:eliminate' not in tags:
                 tags.append('op:eliminate')
+            if c.get('_shared'):
+                tags.append('shared_eliminator_object')
             verdicts = [rule(val, k) for k, _ in c['votes']]
             if all(not w for w in verdicts):
                 tags.append('elim_all_kept')
@@ -1951,6 +2340,7 @@ def generate(rng, tier):
                 tags.append('elim_some_removed')
             for v, _ in c['votes']:
                 tags += sorted(structure_tags(val['vt'], v))
+                tags += sorted('elim:' + t for t in multi_tags(val, v))
         c['_tags'] = sorted(set(tags))
         yield c
 
@@ -1979,7 +2369,25 @@ def shrink_candidates(case):
     if case['op'] == 'shape':
         return
     val = case['val']
-    if case['op'] in ('eliminate', 'validate_seq'):
+    if case['op'] == 'eliminate_seq':
+        sts = case['steps']
+        for i in range(len(sts)):
+            if len(sts) > 1:
+                c = dict(case)
+                c['steps'] = sts[:i] + sts[i + 1:]
+                yield c
+        for i in range(len(sts)):
+            vs = sts[i]['votes']
+            for j in range(len(vs)):
+                if len(vs) > 1:
+                    c = dict(case)
+                    c['steps'] = sts[:i] + [dict(sts[i], votes=vs[:j] + vs[j + 1:])] + sts[i + 1:]
+                    yield c
+            if 'nom' in sts[i]:
+                c = dict(case)
+                c['steps'] = sts[:i] + [{k: v for k, v in sts[i].items() if k != 'nom'}] + sts[i + 1:]
+                yield c
+    elif case['op'] in ('eliminate', 'validate_seq'):
         vs = case['votes']
         for i in range(len(vs)):
             if len(vs) > 1:
@@ -2043,6 +2451,14 @@ def describe(case):
         return f"{ctor}.validate({pool.build(case['vote'])!r})"
     if case['op'] == 'validate_seq':
         return f"v = {ctor}; " + '; '.join(f"v.validate({pool.build(b)!r})" for b in case['votes'])
+    if case['op'] == 'eliminate_seq':
+        parts = []
+        for st in case['steps']:
+            d = {}
+            for k, n in st['votes']:
+                d[pool.build(k)] = py_num(n)
+            parts.append((f"[nominator flags := {st['nom']}] " if 'nom' in st else '') + f"e.convert({d!r})")
+        return f"e = InvalidVoteEliminator({ctor}); " + '; '.join(parts)
     d = {}
     for k, n in case['votes']:
         d[pool.build(k)] = py_num(n)
